@@ -16,7 +16,8 @@ Definition mapping_ok (fw : list (buf * buf)) : Prop :=
 Definition jtv_ok (t : jtv) : Prop := match t with JTVbuf b => canon b | JTVmap fw => mapping_ok fw end.
 Definition jrfd_ok (f : jrfd) : Prop := jtv_ok (j_tv f).
 Definition jrule_ok (r : jrule) : Prop :=
-  canon (jr_id r) /\ Forall jrfd_ok (jr_fds r) /\ (jr_nature r = NoCompression -> jr_fds r = []).
+  canon (jr_id r) /\ Forall jrfd_ok (jr_fds r) /\ (jr_nature r = NoCompression -> jr_fds r = []) /\
+  jr_nature r <> Fragmentation.      (* __json__ raises NotImplementedError on a fragmentation rule (below) *)
 Definition jfield_ok (f : jfield) : Prop := canon (jf_val f).
 Definition jpdesc_ok (p : jpdesc) : Prop := Forall jfield_ok (jp_fields p) /\ canon (jp_payload p) /\ canon (jp_raw p).
 Definition jcontext_ok (c : jcontext) : Prop := Forall jrule_ok (jc_rules c).
@@ -174,7 +175,7 @@ Qed.
 (* ---- RuleDescriptor, Context ------------------------------------------------------------------- *)
 Theorem rule_json_roundtrip r : jrule_ok r -> exists j, rule_to_json r = Ok j /\ rule_from_json j = Ok r.
 Proof.
-  destruct r as [i n fds]. unfold jrule_ok. cbn [jr_id jr_nature jr_fds]. intros (Hi & Hf & Hn).
+  destruct r as [i n fds]. unfold jrule_ok. cbn [jr_id jr_nature jr_fds]. intros (Hi & Hf & Hn & Hnf).
   destruct n.
   - destruct (mapM_mapM_rt rfd_from_json rfd_to_json fds) as (js & Hto & Hfrom).
     { eapply Forall_impl; [|exact Hf]. intros a Ha. apply rfd_json_roundtrip. exact Ha. }
@@ -186,6 +187,49 @@ Proof.
     + unfold rule_to_json. cbn [jr_id jr_nature jr_fds]. reflexivity.
     + unfold rule_from_json. cbn [jget assoc_key jkey_eqb bind].
       rewrite (buf_json_roundtrip i Hi). cbn [bind]. reflexivity.
+  - now elim Hnf.
+Qed.
+
+(* a fragmentation rule (RuleNature.FRAGMENTATION): __json__ raises NotImplementedError whatever the id and
+   the descriptors are; __from_json_object__ raises NotImplementedError on every object whose 'nature' is
+   neither 'compression' nor 'no-compression' (before reading anything else); hence no loaded rule is a
+   fragmentation rule, and a context holding one cannot be serialised *)
+Theorem rule_to_json_fragmentation r : jr_nature r = Fragmentation -> rule_to_json r = Exc NotImplementedError.
+Proof. unfold rule_to_json. intros ->. reflexivity. Qed.
+Theorem rule_from_json_fragmentation j v : jget j K_nature = Ok v ->
+  v <> JNature Compression -> v <> JNature NoCompression -> rule_from_json j = Exc NotImplementedError.
+Proof.
+  intros H H1 H2. unfold rule_from_json. rewrite H. cbn [bind].
+  destruct v as [| | | | | |[| |]| | | |]; try reflexivity; [now elim H1|now elim H2].
+Qed.
+Theorem rule_from_json_not_fragmentation j r : rule_from_json j = Ok r -> jr_nature r <> Fragmentation.
+Proof.
+  unfold rule_from_json. destruct (jget j K_nature) as [v|e|]; cbn [bind]; try discriminate.
+  destruct v as [| | | | | |[| |]| | | |]; try discriminate.
+  - destruct (jget j K_field_descriptors) as [fds|e|]; cbn [bind]; try discriminate.
+    destruct fds; try discriminate.
+    destruct (mapM rfd_from_json l) as [fl|e|]; cbn [bind]; try discriminate.
+    destruct (jget j K_id) as [ji|e|]; cbn [bind]; try discriminate.
+    destruct (buf_from_json ji) as [i|e|]; cbn [bind]; try discriminate.
+    intros [= <-]. discriminate.
+  - destruct (jget j K_id) as [ji|e|]; cbn [bind]; try discriminate.
+    destruct (buf_from_json ji) as [i|e|]; cbn [bind]; try discriminate.
+    intros [= <-]. discriminate.
+Qed.
+Lemma mapM_first_exc {A B} (f : A -> res B) (pre : list A) x post e :
+  Forall (fun a => exists b, f a = Ok b) pre -> f x = Exc e -> mapM f (pre ++ x :: post) = Exc e.
+Proof.
+  induction 1 as [|a pre [b Hb] _ IH]; intros Hx; cbn [app mapM].
+  - rewrite Hx. reflexivity.
+  - rewrite Hb. cbn [bind]. rewrite (IH Hx). reflexivity.
+Qed.
+Theorem context_to_json_fragmentation c pre r post :
+  jc_rules c = pre ++ r :: post -> Forall jrule_ok pre -> jr_nature r = Fragmentation ->
+  context_to_json c = Exc NotImplementedError.
+Proof.
+  intros E Hpre Hr. unfold context_to_json. rewrite E.
+  rewrite (mapM_first_exc rule_to_json pre r post NotImplementedError); [reflexivity| |exact (rule_to_json_fragmentation r Hr)].
+  eapply Forall_impl; [|exact Hpre]. intros a Ha. destruct (rule_json_roundtrip a Ha) as (j & Hj & _). now exists j.
 Qed.
 
 Theorem context_json_roundtrip c : jcontext_ok c -> exists j, context_to_json c = Ok j /\ context_from_json j = Ok c.
